@@ -413,3 +413,59 @@ func VH_C05_dashdriver_Q() {
 	}
 	vAssert("C05.dash.onoff_pointwise", covered == wantOn)
 }
+
+// C05-H4: checkDash ("whether a dash pattern is needed at all", used by Context.DrawPath): for a
+// path of length L it answers "stroke solid", "stroke nothing" or "dash with this pattern".  Against
+// the pattern's on/off function (odd-length patterns doubled, shifted by the offset):
+//   solid   only if every position of (0,L) is drawn,
+//   nothing only if no position of (0,L) is drawn,
+//   a pattern only if it has the same on/off function as the one given.
+// Path: one horizontal line of symbolic length; pattern of 1-3 positive entries k/4; offset within
+// +-2 periods; the probed position symbolic in (0,L), away from dash boundaries.
+func VH_C05_checkdash_Q() {
+	vStub("math.Mod", vhModBounded)
+	vStub("math.Hypot", vhHypotQ)
+	n := vChoose(1, 3)
+	d := make([]float64, n)
+	P := 0.0
+	for i := range d {
+		d[i] = vNondetDyadic(6, 2)
+		vAssume(0.25 <= d[i] && d[i] <= 6)
+		P += d[i]
+	}
+	if n%2 == 1 {
+		P *= 2
+	}
+	off := vNondetDyadic(8, 2)
+	vAssume(-2*P <= off && off <= 2*P)
+	L := vNondetDyadic(7, 2)
+	vAssume(0.25 <= L && L <= 12)
+	p := &Path{}
+	p.d = []float64{MoveToCmd, 1, 2, MoveToCmd, LineToCmd, 1 + L, 2, LineToCmd}
+	before := append([]float64{}, d...)
+	dd, ok := p.checkDash(off, d)
+	vAssert("C05.checkdash.pattern_argument_unchanged", vhSameData(d, before))
+	x := vNondetF64()
+	vAssume(0 < x && x < L)
+	// general position: not within 1e-6 of a boundary of the given pattern
+	gp := true
+	for k := -3; k <= 3; k++ {
+		acc := float64(k)*P - off
+		for rep := 0; rep < 2; rep++ {
+			for i := range d {
+				gp = gp && (x-acc >= 1e-6 || acc-x >= 1e-6)
+				acc += d[i]
+			}
+		}
+	}
+	vAssume(gp)
+	want := vhOnPattern(off, d, x)
+	switch {
+	case ok && len(dd) == 0:
+		vAssert("C05.checkdash.solid_only_if_all_drawn", want)
+	case !ok:
+		vAssert("C05.checkdash.nothing_only_if_nothing_drawn", !want)
+	default:
+		vAssert("C05.checkdash.kept_pattern_equivalent", vhOnPattern(off, dd, x) == want)
+	}
+}
